@@ -53,7 +53,9 @@ TraceInit ==
     /\ s = FreshS(<<>>) /\ loc = NewLoc("trace")
     /\ rank = <<>> /\ ok = <<>> /\ disk = Null
     /\ proc = [st |-> "run", stops |-> 0, code |-> 0]
-    /\ aux = [running |-> FALSE, last |-> "none", doneSeen |-> FALSE, itsum |-> 0, pacc |-> 0]
+    /\ aux = [running |-> FALSE, last |-> "none", doneSeen |-> FALSE, itsum |-> 0, pacc |-> 0,
+              obs |-> [it |-> -1, phase |-> "none", train |-> 0, lastTrain |-> 0, nhist |-> 0, pool |-> 0,
+                       poolsize |-> 0]]
 
 Keep == UNCHANGED <<loc, proc>>
 Mark(name) == aux' = [aux EXCEPT !.last = name]
@@ -124,7 +126,18 @@ EvIter(e) ==
         /\ M("iter: post-state differs from ConsumeF",
              (Len(s.live) = NLive /\ e.new \in 1..Len(rk))
                 => [ConsumeF(s, e.new, rk, e.above) EXCEPT !.evals = e.evals] = post)
-        /\ aux' = [aux EXCEPT !.last = "iter", !.itsum = e.it_sum]
+        \* ---- M: training / proposal policy of NestedSampler.tla between two boundaries
+        /\ LET o == [it |-> e.it, phase |-> e.phase, train |-> e.train, lastTrain |-> e.last_train,
+                     nhist |-> e.n_hist, pool |-> e.pool_left, poolsize |-> e.poolsize]
+           IN  /\ (aux.obs.it >= 0 =>
+                     /\ M("policy: proposal switched back to the uninformed one", PhaseMonotone(aux.obs, o))
+                     /\ M("policy: flow trained while the uninformed proposal is in use", TrainOnlyInFlow(aux.obs, o))
+                     /\ M("policy: more than two trainings in one iteration", TrainStep(aux.obs, o))
+                     /\ M("policy: cooldown not respected",
+                          CooldownRespected(aux.obs, o, e.cooldown, e.train_on_empty)))
+               /\ M("policy: still uninformed after maximum_uninformed", SwitchByMaximum(o, e.max_uninformed))
+               /\ M("policy: pool larger than the pool size", e.phase = "flow" => e.pool_left <= 10 * e.poolsize)
+               /\ aux' = [aux EXCEPT !.last = "iter", !.itsum = e.it_sum, !.obs = o]
         /\ UNCHANGED disk
 
 \* ---------------------------------------------------------------- populate
@@ -204,7 +217,7 @@ EvResume(e) ==
             /\ P("C12", "restored_digest:" \o e.digest_diff, e.digest_ok)
        ELSE s' = s
     /\ rank' = RankWith(e) /\ ok' = OkWith(e, TRUE)
-    /\ aux' = [aux EXCEPT !.last = "resume", !.itsum = e.it_sum] /\ UNCHANGED disk
+    /\ aux' = [aux EXCEPT !.last = "resume", !.itsum = e.it_sum, !.obs.it = -1] /\ UNCHANGED disk
 
 \* ---------------------------------------------------------------- finalise
 EvFinalise(e) ==
